@@ -70,6 +70,9 @@ type Unit struct {
 	// (pure performance stubs whose result does not influence what the harness observes).
 	ReplaceAlways map[string]string `json:"replace_always"`
 	MapOrder    bool              `json:"map_order"`
+	// MapOrderBudget: only the first N multi-entry map iterations of a path get a nondeterministic
+	// order (0 = all); later ones use insertion order.
+	MapOrderBudget int            `json:"map_order_budget"`
 	Preemptions int               `json:"preemptions"`
 	EnvFires    int               `json:"env_fires"`
 	// ExtraFiles: harness sources injected into other packages (directory under /repo -> files under
